@@ -12,12 +12,32 @@ ASSUMPTIONS = ["the exhaustive statement rests on the 64-bit C reference validat
                "full period follows from 16807 being a primitive root modulo the prime 2^31-1 (not checked)"]
 
 
+DEFAULT_NAMES = ["sp", "p", "s", "seed", "seedp", "hi", "lo", "x", "state", "r", "t", "tmp", "ptr", "v", "n", "ret", "res", "a", "q", "rng"]
+C_WORDS = {"uint32_t", "uint16_t", "uint64_t", "int", "unsigned", "return", "if", "else", "do", "while", "const", "volatile", "long",
+           "short", "char", "sizeof", "static", "inline", "extern", "void", "__extension__", "__typeof__", "typeof", "VPARG", "rand31_r"}
+
+
+def expansion_names():
+    """identifiers that appear when rand31_r(arg) is preprocessed (none unless the header puts a macro in front of the function)"""
+    import re
+    rc, out = sh(["gcc", "-E", "-P", "-I" + os.path.join(REPO, "include"), "-x", "c", "-"], timeout=60,
+                 inp=b"#include <librfn/rand.h>\nVPMARK rand31_r(VPARG);\n")
+    if rc != 0 or "VPMARK" not in out:
+        return []
+    text = out[out.rfind("VPMARK") + 6:]
+    return [n for n in sorted(set(re.findall(r"[A-Za-z_]\w*", text))) if n not in C_WORDS and not n.startswith("__")][:30]
+
+
 def run(run):
     res = require_ok(run, tlc(run, "Rand31_mc", "Rand31_mc.cfg", tag="mc"), "Rand31 MC")
     if res["violated"]:
         raise Infra("Rand31: Carta differs from Park-Miller: %s" % res["violated"])
     account_mc(run, res)
-    exe = build_driver(run, "rand_drv", "rand_drv.c", ["librfn/rand.c"], cc=["gcc", "-std=gnu11", "-O2", "-g", "-DLIBRFN_VERIF"])
+    names = DEFAULT_NAMES + [n for n in expansion_names() if n not in DEFAULT_NAMES]
+    nh = run.path("rand_names.h")
+    open(nh, "w").write("#define VP_NAMES(X) %s\n" % " ".join("X(%s)" % n for n in names))
+    nflag = '-DVP_NAMES_H="%s"' % nh
+    exe = build_driver(run, "rand_drv", "rand_drv.c", ["librfn/rand.c"], cc=["gcc", "-std=gnu11", "-O2", "-g", "-DLIBRFN_VERIF", nflag])
     nr = 100000 if run.thorough() else 10000
     tr = exec_script(run, exe, [], "Vectors %d %d\nSweep %d\n" % (run.seed, nr, NCPU), run.path("rand.ndjson"), "vectors+sweep", timeout=900)
     n = count_lines(tr)
@@ -31,6 +51,14 @@ def run(run):
     run.extra["swept_states"] = (1 << 31) - 2
     sample_trace(run, tr, 4)
     run.add_sample(read_line(tr, n))
+    # whole-program builds: the generator compiled into the caller's translation unit (-include rand.c) and with -flto, at -O2:
+    # the optimiser sees both sides of the call, so anything the source only gets away with across a call boundary shows
+    for vtag, cc, srcs in (("unity", ["gcc", "-std=gnu11", "-O2", "-g", "-DLIBRFN_VERIF", nflag, "-include", os.path.join(REPO, "librfn/rand.c")], []),
+                           ("lto", ["gcc", "-std=gnu11", "-O2", "-flto", "-g", "-DLIBRFN_VERIF", nflag], ["librfn/rand.c"]),
+                           ("O3", ["gcc", "-std=gnu11", "-O3", "-g", "-DLIBRFN_VERIF", nflag, "-include", os.path.join(REPO, "librfn/rand.c")], [])):
+        exev = build_driver(run, "rand_drv_" + vtag, "rand_drv.c", srcs, cc=cc)
+        trv = exec_script(run, exev, [], "Vectors %d %d\nSweep %d\n" % (run.seed + 1, 3000, NCPU), run.path("rand-%s.ndjson" % vtag), vtag + " build vectors+sweep", timeout=900)
+        check_trace(run, vtag + "-build-vectors+sweep", "TraceRand", "TraceRand.cfg", trv, timeout=900)
     # the same source built for an ILP32 target (gcc -m32, freestanding): vectors validated by TLC, then all 2^31-2 states
     # against Schrage's form (the specification's ParkMiller operator, 32-bit safe)
     exe32 = run.path("rand32_drv")
